@@ -22,18 +22,19 @@
 (* As in TraceRegistryAbs every event is accepted and what it proves wrong *)
 (* goes to `viol`; C09..C12 (and the iterator part of C03) are invariants. *)
 (***************************************************************************)
-EXTENDS Naturals, Sequences, FiniteSets, TLC, Json, IOUtils
+EXTENDS Integers, Sequences, FiniteSets, TLC, Json, IOUtils
 
 CONSTANTS HandlerBase, HandlerPerAct
 
 Rec == ndJsonDeserialize(IOEnv.TRACE)
 
-VARIABLES l, watched, flag, queue, begun, yielded, gotIds, delivered, bytes, closed, call,
+VARIABLES fstate,     \* <<thread, depth>> of an open delivery -> [woke, stored]
+          l, watched, flag, queue, begun, yielded, gotIds, delivered, bytes, closed, call,
           consulted, lastAns, lastPoll, frames, poisoned, viol,
           returned,   \* <<sig, id>> of deliveries that have returned
           preds       \* <<sig, id>> -> deliveries of that signal that had returned before it began
 
-vars == <<l, watched, flag, queue, begun, yielded, gotIds, delivered, bytes, closed, call,
+vars == <<fstate, l, watched, flag, queue, begun, yielded, gotIds, delivered, bytes, closed, call,
           consulted, lastAns, lastPoll, frames, poisoned, viol, returned, preds>>
 
 R == Rec[l]
@@ -50,22 +51,25 @@ TInit ==
     /\ gotIds = {} /\ delivered = {} /\ bytes = 0 /\ closed = FALSE /\ call = "none"
     /\ consulted = FALSE /\ lastAns = FALSE /\ lastPoll = 0 /\ frames = {} /\ poisoned = FALSE
     /\ viol = {}
-    /\ returned = {} /\ preds = [x \in {} |-> {}]
+    /\ returned = {} /\ preds = [x \in {} |-> {}] /\ fstate = [x \in {} |-> 0]
 
-Keep(vs) == UNCHANGED vs
+Keep(vs) == UNCHANGED vs /\ UNCHANGED fstate
+KeepF(vs) == UNCHANGED vs         \* for the actions that change fstate
+FKey == <<R.t, R.d>>
+FSet(k, fld) == IF k \in DOMAIN fstate THEN [fstate EXCEPT ![k][fld] = TRUE] ELSE fstate
 
 \* End of a run: a consumer parked as `pending` must not be stranded with an unreported signal
 \* and no wake-up byte outstanding.
 TReset ==
     /\ Ev("reset")
     /\ viol' = viol \cup Flag(l > 1 /\ lastPoll = 2 /\ ~closed /\ bytes = 0
-                              /\ \E s \in watched : flag[s] \/ queue[s] # << >>,
+                              /\ \E s \in watched \cap Sigs : flag[s] \/ queue[s] # << >>,
                               "pending_with_unreported_signal_and_no_wakeup")
                     \* ... nor parked without an armed wake-up (the readiness callback's last answer
                     \* was not "nothing available", so nobody will poll it again): a byte in the
                     \* pipe wakes no one who is not waiting for it
                     \cup Flag(l > 1 /\ lastPoll = 2 /\ ~closed /\ ~(consulted /\ ~lastAns)
-                              /\ \E s \in watched : flag[s] \/ queue[s] # << >>,
+                              /\ \E s \in watched \cap Sigs : flag[s] \/ queue[s] # << >>,
                               "pending_unarmed_with_unreported_signal")
     /\ watched' = Range(R.watch)
     /\ flag' = [s \in Sigs |-> FALSE] /\ queue' = [s \in Sigs |-> << >>]
@@ -73,7 +77,7 @@ TReset ==
     /\ gotIds' = {} /\ delivered' = {} /\ bytes' = 0 /\ closed' = FALSE /\ call' = "none"
     /\ consulted' = FALSE /\ lastAns' = FALSE /\ lastPoll' = 0 /\ frames' = {}
     /\ poisoned' = FALSE
-    /\ returned' = {} /\ preds' = [x \in {} |-> {}]
+    /\ returned' = {} /\ preds' = [x \in {} |-> {}] /\ fstate' = [x \in {} |-> 0]
 
 TDeliver ==
     /\ Ev("deliver")
@@ -82,8 +86,15 @@ TDeliver ==
     /\ delivered' = delivered \cup {<<R.sig, R.id>>}
     /\ preds' = [x \in DOMAIN preds \cup {<<R.sig, R.id>>} |->
                    IF x = <<R.sig, R.id>> THEN {y \in returned : y[1] = R.sig} ELSE preds[x]]
-    /\ Keep(<<watched, flag, queue, yielded, gotIds, bytes, closed, call, consulted, lastAns,
-              lastPoll, poisoned, viol, returned>>)
+    \* sawfull: the per-signal buffer may have been full at some instant of this delivery (records
+    \* queued + deliveries of the signal in flight >= 5): then storing nothing is legitimate
+    /\ fstate' = [x \in DOMAIN fstate \cup {FKey} |->
+                    IF x = FKey
+                    THEN [woke |-> FALSE, stored |-> FALSE, sig |-> R.sig,
+                          sawfull |-> Len(queue[R.sig]) + Cardinality({f \in frames : f[3] = R.sig}) + 1 >= 5]
+                    ELSE fstate[x]]
+    /\ KeepF(<<watched, flag, queue, yielded, gotIds, bytes, closed, call, consulted, lastAns,
+               lastPoll, poisoned, viol, returned>>)
 
 \* The innermost delivery frame of thread t.
 FrameOf(t, d) == CHOOSE f \in frames : f[1] = t /\ f[2] = d
@@ -91,22 +102,30 @@ FrameOf(t, d) == CHOOSE f \in frames : f[1] = t /\ f[2] = d
 TFlagSet ==
     /\ Ev("flag_set")
     /\ flag' = [flag EXCEPT ![R.sig] = TRUE]
-    /\ Keep(<<watched, queue, begun, yielded, gotIds, delivered, bytes, closed, call, consulted,
-              lastAns, lastPoll, frames, poisoned, viol>>)
+    /\ fstate' = FSet(FKey, "stored")
+    /\ KeepF(<<watched, queue, begun, yielded, gotIds, delivered, bytes, closed, call, consulted,
+               lastAns, lastPoll, frames, poisoned, viol>>)
 
 \* An info exfiltrator stored the record of the delivery running in this frame.
 TSlotPut ==
     /\ Ev("slot_put")
     /\ LET f == FrameOf(R.t, R.d) IN
-       queue' = [queue EXCEPT ![f[3]] = Append(@, f[4])]
-    /\ Keep(<<watched, flag, begun, yielded, gotIds, delivered, bytes, closed, call, consulted,
-              lastAns, lastPoll, frames, poisoned, viol>>)
+       /\ queue' = [queue EXCEPT ![f[3]] = Append(@, f[4])]
+       /\ fstate' = [x \in DOMAIN fstate |->
+                       IF x = FKey THEN [fstate[x] EXCEPT !.stored = TRUE]
+                       ELSE IF fstate[x].sig = f[3]
+                               /\ Len(queue[f[3]]) + 1 + Cardinality({g \in frames : g[3] = f[3]}) >= 5
+                            THEN [fstate[x] EXCEPT !.sawfull = TRUE]
+                            ELSE fstate[x]]
+    /\ KeepF(<<watched, flag, begun, yielded, gotIds, delivered, bytes, closed, call, consulted,
+               lastAns, lastPoll, frames, poisoned, viol>>)
 
 TWake ==
     /\ Ev("wake")
     /\ bytes' = bytes + 1
-    /\ Keep(<<watched, flag, queue, begun, yielded, gotIds, delivered, closed, call, consulted,
-              lastAns, lastPoll, frames, poisoned, viol>>)
+    /\ fstate' = FSet(FKey, "woke")
+    /\ KeepF(<<watched, flag, queue, begun, yielded, gotIds, delivered, closed, call, consulted,
+               lastAns, lastPoll, frames, poisoned, viol>>)
 
 TReturn ==
     /\ Ev("return")
@@ -117,8 +136,14 @@ TReturn ==
          \cup Flag(R.locks > 0, "handler_lock") \cup Flag(R.hints > 0, "handler_hint")
          \cup Flag(R.allocs > 0, "handler_alloc") \cup Flag(R.frees > 0, "handler_free")
          \cup Flag(R.steps > HandlerBase + HandlerPerAct, "handler_steps")
-    /\ Keep(<<watched, flag, queue, begun, yielded, gotIds, delivered, bytes, closed, call,
-              consulted, lastAns, lastPoll, poisoned>>)
+         \* the instance's action ran (it woke the reader) but left nothing for the reader to find,
+         \* although the per-signal buffer had room throughout the delivery
+         \cup Flag(FKey \in DOMAIN fstate /\ fstate[FKey].woke /\ ~fstate[FKey].stored
+                   /\ ~fstate[FKey].sawfull,
+                   "delivery_woke_the_reader_but_stored_nothing")
+    /\ fstate' = [x \in DOMAIN fstate \ {FKey} |-> fstate[x]]
+    /\ KeepF(<<watched, flag, queue, begun, yielded, gotIds, delivered, bytes, closed, call,
+               consulted, lastAns, lastPoll, poisoned>>)
 
 (* consumer *)
 TCall ==
@@ -173,12 +198,12 @@ TYield ==
        /\ IF R.id = 0
           THEN /\ Keep(<<queue, gotIds>>)
                /\ viol' = viol
-                    \cup Flag(s \notin watched, "yield_of_unwatched_signal")
+                    \cup Flag(s \notin watched /\ (0 - s) \notin watched, "yield_of_unwatched_signal")
                     \cup Flag(yielded[s] + 1 > begun[s], "more_yields_than_deliveries")
           ELSE /\ gotIds' = gotIds \cup {<<s, R.id>>}
                /\ queue' = [queue EXCEPT ![s] = SelectSeq(@, LAMBDA x : x # R.id)]
                /\ viol' = viol
-                    \cup Flag(s \notin watched, "yield_of_unwatched_signal")
+                    \cup Flag(s \notin watched /\ (0 - s) \notin watched, "yield_of_unwatched_signal")
                     \cup Flag(yielded[s] + 1 > begun[s], "more_yields_than_deliveries")
                     \cup Flag(<<s, R.id>> \notin delivered, "record_of_no_delivery")
                     \cup Flag(<<s, R.id>> \in gotIds, "record_yielded_twice")
@@ -220,15 +245,18 @@ TClosedLoad ==
     /\ Keep(<<watched, flag, queue, begun, yielded, gotIds, delivered, bytes, closed, call,
               consulted, lastAns, lastPoll, frames, poisoned>>)
 
+\* While add_signal(s) is under way the signal is "being added" (-s in `watched`): a delivery the
+\* new action has already caught may legitimately be yielded before add_signal returns.
 TCallAdd ==
     /\ Ev("call_add")
-    /\ Keep(<<watched, flag, queue, begun, yielded, gotIds, delivered, bytes, closed, call,
+    /\ watched' = watched \cup {0 - R.sig}
+    /\ Keep(<<flag, queue, begun, yielded, gotIds, delivered, bytes, closed, call,
               consulted, lastAns, lastPoll, frames, poisoned, viol>>)
 
 \* res: 1 = Ok, 2 = Err, 3 = the documented panic.  A rejected addition changes nothing.
 TRetAdd ==
     /\ Ev("ret_add")
-    /\ watched' = IF R.res = 1 THEN watched \cup {R.sig} ELSE watched
+    /\ watched' = IF R.res = 1 THEN (watched \ {0 - R.sig}) \cup {R.sig} ELSE watched \ {0 - R.sig}
     /\ Keep(<<flag, queue, begun, yielded, gotIds, delivered, bytes, closed, call, consulted,
               lastAns, lastPoll, frames, poisoned, viol>>)
 
@@ -246,7 +274,7 @@ TIdsLock ==
 TStuck ==
     /\ Ev("stuck")
     /\ viol' = viol
-         \cup Flag(~closed /\ \E s \in watched : flag[s] \/ queue[s] # << >>,
+         \cup Flag(~closed /\ \E s \in watched \cap Sigs : flag[s] \/ queue[s] # << >>,
                    "consumer_blocked_with_unreported_signal")
          \cup Flag(closed, "consumer_blocked_after_close")
     \* the harness now closes the instance from outside to release whoever is blocked
@@ -294,7 +322,7 @@ TraceAccepted ==
 
 ----------------------------------------------------------------------------
 C03set == {"handler_blocked_or_spinning", "handler_panicked", "handler_lock", "handler_hint", "handler_alloc", "handler_free", "handler_steps"}
-C09set == {"consumer_blocked_with_unreported_signal",
+C09set == {"consumer_blocked_with_unreported_signal", "delivery_woke_the_reader_but_stored_nothing",
            "pending_with_unreported_signal_and_no_wakeup",
            "pending_unarmed_with_unreported_signal", "deadlock", "livelock"}
 C10set == {"record_not_a_faithful_copy", "yield_of_unwatched_signal", "more_yields_than_deliveries",
